@@ -47,6 +47,63 @@ claim("C19", "E3", "exhaustive type product x hypothesis generated networks vs c
       "Dictionaries in the shape the callers in network.py use (no auth type 'none'); stub env/vm; tunnel names "
       "without underscores (third-party object_params limitation).")
 
+_E1NOTE = "Model executor and model state pools at the selftests' seams (run_test_task, node.door, login, spawner); virtual-clock loop; memoised third-party parser and faster Params.object_params (self-checked); run parameters patched into parsed nodes. Scenarios come from the shipped suite only."
+_E1TEXT = 'Generated traversals of the real graph code (real parse, real traverse_object_trees/traverse_node/reverse_node/run_test_node/run_workers) on a virtual clock: scenario x run parameters x initial pools x durations x outcomes; the oracle is an invariant over the recorded event history. '
+claim("C01", "E1", "hypothesis generated traversal histories (virtual-clock simulation) vs availability invariant",
+      _E1TEXT + "C01: at every test start each required non-root state must be in the worker's own pool or in a listed "
+      "and scope-permitted pool, unless its producer or the object's creation had a non-PASS attempt before, or the "
+      "object is permanent with an externally given state. Two classes are listed as known findings (C01-F1, C01-F2).",
+      _E1NOTE)
+claim("C02", "E1", "hypothesis generated traversal histories vs termination / definite-result invariants",
+      _E1TEXT + "C02: the run must complete without deadlock, traversal error or exceeding deterministic step and "
+      "virtual-time bounds (a busy loop is caught by a step counter), every selected test composable with a worker "
+      "is executed, no node keeps a pending UNKNOWN result, a dry run executes nothing and changes no state. Found "
+      "and fixed: a creation-step retry livelock and the pending placeholder left for unreported results.",
+      _E1NOTE + " Step bounds are generous constants derived from the run's own size.")
+claim("C03", "E1", "hypothesis generated traversal histories vs execution-count invariant per reuse scope",
+      _E1TEXT + "C03: executions per (worker-invariant identity, reuse scope) <= 1 or max_tries; none when all states "
+      "were present at the scope's first scan; flat nodes and clone sources never executed. Results that are never "
+      "reported are not generated here (they overrun the timeout). One class is a known finding (C03-F1).",
+      _E1NOTE)
+claim("C04", "E1", "hypothesis generated schedules (tied and near-timeout durations) vs interval-overlap invariant",
+      _E1TEXT + "C04: sweep-line over execution intervals per (identity, scope): overlap <= max_concurrent_tries with "
+      "the two-step creation as one execution; every back-off lasts the documented period and the worker restarts "
+      "from the root. Durations stay strictly below the timeout. Found and fixed: the creation budget defect.",
+      _E1NOTE)
+claim("C05", "E1", "hypothesis generated traversal histories vs removal-ordering invariant",
+      _E1TEXT + "C05: every unset request must concern a state marked for removal, no dependant within the reuse "
+      "scope may run at that moment or start later without the producer re-running, reuse/block pool filters issue "
+      "no copy while backing out, and reusable states produced in the run are still in their producer's pool at the "
+      "end. One class is a known finding (C05-F1).",
+      _E1NOTE)
+claim("C08", "E1", "hypothesis generated traversal histories vs worker/location exactness invariant",
+      _E1TEXT + "C08: every execution happens on the worker the test was parsed for, with that worker's connection "
+      "parameters and within its vm restrictions; the listed sources of each required state are the shared pool plus "
+      "exactly the workers with a PASS result of a producer (WARN producers optional), with their access parameters.",
+      _E1NOTE)
+claim("C11", "E3", "hypothesis generated argument lists vs own restriction matcher over the sets.cfg universe + metamorphic relations",
+      "Generated command lines (only/no/only_vmX/no_vmX/vms/nets/only_nets/K=V, malformed tokens, any order and "
+      "multiplicity) through the real params_from_cmd and parse_flat_nodes; expected selection from an own matcher "
+      "(, = or, .. = and in any order, . = adjacent) cross-checked against the plain Cartesian parser; metamorphic "
+      "equivalences (permutation, duplication, only=a only=b == a..b, no= as difference); overrides in every flat "
+      "node; documented error cases. Two defects found and fixed.",
+      "Only flat (loader) nodes are inspected for overrides; syntactically invalid restriction values are not "
+      "generated; suite = shipped tp_folder.")
+claim("C12", "E3", "exhaustive single-call policy table + hypothesis stateful machine vs set-of-names store model",
+      "36 624 enumerated rows (operation x mode letters x check mode x presence x root x type x backend flavour, plus "
+      "skip_types/readonly filter rows) and a rule-based state machine over 1-3 vms x 1-2 images; after every call "
+      "outcome, ordered backend actions, touched objects and the resulting store must equal a plain model of the "
+      "documented policy table. One defect found and fixed (push/pop on readonly images).",
+      "In-memory backends registered in ss.BACKENDS (plain and sourced flavour); policy table transcribed from the "
+      "README and docstrings (DESIGN.md appendix A); one net; no skip_types for push/pop.")
+claim("C13", "E3", "exhaustive scope x source-layout enumeration + hypothesis for longer lists vs label-based oracle",
+      "All 16 scope subsets x all label sequences of <= 4 sources x placements x cache validity (and the root "
+      "variants) are enumerated against the real SourcedStateBackend/RootSourcedStateBackend with recording stub "
+      "transport and local operations; the expected scope of a source is the generator's label, never the code's "
+      "classification; longer lists by hypothesis. Two root-scope signatures are known findings (C13-F1, C13-F2).",
+      "Stub transport and stub local backend substituted through the class attributes as in StatesPoolTest; the real "
+      "TransferOps/ssh layer is not exercised.")
+
 _pending = "check not built yet in this round (planned in DESIGN.md section 4); not claimed until it runs"
 for _i in range(1, 21):
     _p = f"C{_i:02d}"
